@@ -277,7 +277,7 @@ for r in req:
             for root, _, fs in os.walk(outd):
                 for f in fs:
                     p = os.path.join(root, f)
-                    res[os.path.relpath(p, outd)] = open(p).read()
+                    res[os.path.relpath(p, outd)] = open(p, encoding="utf-8", errors="backslashreplace").read()
             out.append(json.dumps(res, sort_keys=True))
         finally:
             shutil.rmtree(d, ignore_errors=True)
